@@ -1204,12 +1204,15 @@ class _Part2:
     def one(i):
       c = self.classes[i]
       s = '<default%s>' % (_attrs([('class', c['name'])]) if c['name'] else '')
-      for et, vals in c['val'].items():
-        if vals:
-          s += '<%s%s/>' % (et, _attrs(list(vals.items())))
-      for k in kids.get(i, []):
-        s += one(k)
-      return s + '</default>'
+      # the settings of a class and its nested classes may come in any order: inheritance is by structure, not by
+      # document order (XMLreference, default classes)
+      parts = ['<%s%s/>' % (et, _attrs(list(vals.items()))) for et, vals in c['val'].items() if vals]
+      parts += [one(k) for k in kids.get(i, [])]
+      if len(parts) > 1 and kids.get(i) and self.draw is not None and self.flag('defaults', 2):
+        order = self.draw(st.permutations(list(range(len(parts)))))
+        parts = [parts[j] for j in order]
+        self.stats.add('defaults:nested-before-settings')
+      return s + ''.join(parts) + '</default>'
     return one(0)
 
   # ---------------------------------------------------------------- whole document
